@@ -82,11 +82,11 @@ Definition bind (G : tenv) (v : nat) (t : ty) : tenv :=
 Inductive argreq := AKind (k : kind) | ARef (allow_param : bool).
 Record msig := mk_msig { m_res : ty; m_arg : argreq; m_min : nat; m_max : option nat }.
 
-Inductive position := PStart | PSize | PArrayLen | PCond | PRequires | PEnumValue.
+Inductive position := PStart | PSize | PArrayLen | PCond | PRequires | PEnumValue | PAny.
 Definition position_eqb (a b : position) : bool :=
   match a, b with
   | PStart, PStart | PSize, PSize | PArrayLen, PArrayLen | PCond, PCond
-  | PRequires, PRequires | PEnumValue, PEnumValue => true
+  | PRequires, PRequires | PEnumValue, PEnumValue | PAny, PAny => true
   | _, _ => false
   end.
 
@@ -470,6 +470,7 @@ Definition pos_demands (p : position) (t : ty) : Prop :=
   match p with
   | PStart | PSize | PArrayLen | PEnumValue => t = TInt
   | PCond | PRequires => t = TBool
+  | PAny => True     (* e.g. the value of an attribute: typed by the attribute table, C14 *)
   end.
 
 Fixpoint well_typed_items (G : tenv) (items : list item) : Prop :=
